@@ -40,4 +40,5 @@ def run(ctx):
                                                 "--tier", ctx.tier], drv)
     chanlib.liveness_tie(ctx, "conc-liveness", [h, "gen", "--seed", str(ctx.seed), "--cases", str(n), "--mode", "conc",
                                                 "--tier", ctx.tier], drv)
+    chanlib.race_pairs_tie(ctx, h, drv)
     chanlib.layer_b(ctx, LAYER_B)
